@@ -216,6 +216,31 @@ func (s *Sim) roundTxs(t *rapid.T, view *View, g *TxGen) []*TxDesc {
 		}
 	}
 	var out []*TxDesc
+	if len(rd.msgs) > 0 && rapid.IntRange(0, 3).Draw(t, "roundStrayCommit") == 0 {
+		// a commitment by a node that names ITSELF as the scheduler and carries the round's messages, whatever its place in the
+		// committee (mostly none, or not the scheduler's): well-formed and correctly signed, refused by the committee checks
+		var all []*NodeKeys
+		for _, ek := range s.W.Entities {
+			all = append(all, ek.Nodes...)
+		}
+		nk := all[rapid.IntRange(0, len(all)-1).Draw(t, "roundStrayNode")]
+		if !nk.ID.Public().Equal(sched.PublicKey) {
+			res := driverResult(3)
+			res.Messages = rd.msgs
+			if ec, err := NewExecutorCommitment(s.W.Runtime.ID, nk, nk.ID.Public(), rs.LastBlock, nil, res); err == nil {
+				addr := staking.NewAddress(nk.ID.Public())
+				nonce := g.V.Account(addr).General.Nonce + g.nonceAdd[addr]
+				g.nonceAdd[addr]++
+				body := &roothash.ExecutorCommit{ID: s.W.Runtime.ID, Commits: []commitment.ExecutorCommitment{*ec}}
+				gas := s.W.Spec.GasOp*uint64(1+len(res.Messages)) + s.W.Spec.GasTxByte*2048
+				out = append(out, &TxDesc{
+					Raw:    SignTx(nk.ID, nonce, &transaction.Fee{Gas: transaction.Gas(gas)}, roothash.MethodExecutorCommit, body),
+					Signer: nk.Name, Addr: addr, Method: roothash.MethodExecutorCommit, Nonce: nonce, Gas: gas, Note: "stray commitment with messages by a self-named scheduler", ExpectAuthOK: true,
+				})
+				rd.Outcomes["stray-commitment-with-messages"]++
+			}
+		}
+	}
 	for _, v := range votes {
 		nk := byID[v.pk]
 		if nk == nil || (!now[v.pk] && !v.pk.Equal(anchorID) && rapid.IntRange(0, 2).Draw(t, "roundVoteNow") == 0) {
@@ -260,4 +285,61 @@ func RoothashEventKinds(out *BlockOutcome) []string {
 		}
 	}
 	return kinds
+}
+
+// GenStrayCommitWithMessages builds a roothash.ExecutorCommit by a registered node that names ITSELF as the scheduler of
+// the next round and carries messages emitted "by the runtime" (transfers out of the runtime's account, escrow added to or
+// reclaimed from an entity's pool): well-formed and correctly signed; the committee checks refuse it unless the node happens
+// to be the round's scheduler (nil when there is no runtime block to build on).
+func (g *TxGen) GenStrayCommitWithMessages(t *rapid.T) *TxDesc {
+	w := g.W
+	if w.Runtime == nil {
+		return nil
+	}
+	rs, err := g.V.RuntimeState(w.Runtime.ID)
+	if err != nil || rs == nil || rs.LastBlock == nil {
+		return nil
+	}
+	var all []*NodeKeys
+	for _, ek := range w.Entities {
+		all = append(all, ek.Nodes...)
+	}
+	if len(all) == 0 {
+		return nil
+	}
+	nk := all[rapid.IntRange(0, len(all)-1).Draw(t, "strayNode")]
+	bal := w.Spec.RtAccountBalance
+	var msgs []message.Message
+	for n := rapid.IntRange(1, 3).Draw(t, "strayMsgs"); n > 0; n-- {
+		amt := q(uint64(rapid.SampledFrom([]int{1, 7, 100, int(bal/2) + 1, int(bal)}).Draw(t, "strayMsgAmount")))
+		pool := w.Entities[rapid.IntRange(0, len(w.Entities)-1).Draw(t, "strayMsgPool")].Address()
+		sm := &message.StakingMessage{Versioned: cbor.NewVersioned(0)}
+		switch rapid.IntRange(0, 2).Draw(t, "strayMsgKind") {
+		case 0:
+			sm.Transfer = &staking.Transfer{To: pool, Amount: amt}
+		case 1:
+			sm.AddEscrow = &staking.Escrow{Account: pool, Amount: amt}
+		default:
+			sm.ReclaimEscrow = &staking.ReclaimEscrow{Account: pool, Shares: amt}
+		}
+		msgs = append(msgs, message.Message{Staking: sm})
+	}
+	res := driverResult(3)
+	res.Messages = msgs
+	ec, err := NewExecutorCommitment(w.Runtime.ID, nk, nk.ID.Public(), rs.LastBlock, nil, res)
+	if err != nil {
+		return nil
+	}
+	addr := staking.NewAddress(nk.ID.Public())
+	nonce := g.V.Account(addr).General.Nonce + g.nonceAdd[addr]
+	g.nonceAdd[addr]++
+	body := &roothash.ExecutorCommit{ID: w.Runtime.ID, Commits: []commitment.ExecutorCommitment{*ec}}
+	gas := w.Spec.GasOp*uint64(2+len(msgs)) + w.Spec.GasTxByte*4096
+	return &TxDesc{
+		Raw:    SignTx(nk.ID, nonce, &transaction.Fee{Gas: transaction.Gas(gas)}, roothash.MethodExecutorCommit, body),
+		Signer: nk.Name, Addr: addr, Method: roothash.MethodExecutorCommit, Nonce: nonce, Gas: gas, Note: "stray commitment with messages by a self-named scheduler", ExpectAuthOK: true,
+		Resign: func(gas2 uint64) []byte {
+			return SignTx(nk.ID, nonce, &transaction.Fee{Gas: transaction.Gas(gas2)}, roothash.MethodExecutorCommit, body)
+		},
+	}
 }
